@@ -622,10 +622,10 @@ def gen_pure_program(rng, dom=4, neg=True, consts=True):
 # enumerative mode: the space of small rule shapes  [binder]? cl1, cl2  over a fixed vocabulary
 
 
-def rule_shape_space():
+def rule_shape_space(binders=(None, 'let', 'for')):
     """all (binder, cl1, cl2) shapes over relations a/2, b/2, h/2 (the recursive head) and c/1, arguments drawn from
     {x, y, z, w (the binder's variable), the constant 1, _}. Returned as a list of descriptors (deterministic order)."""
-    binders = [None, 'let', 'for']
+    binders = list(binders)
     argsyms = ['x', 'y', 'z', 'w', '1', '_']
     shapes = []
     for b in binders:
@@ -664,6 +664,10 @@ def shape_to_rule(shape, dom):
     elif b == 'for':
         body.append(For('w', Range(K(0), K(min(2, dom)))))
         bound.append('w')
+    elif b in ('aggmax', 'aggmin', 'aggsecond'):
+        # an aggregate BEFORE the clauses: its result variable is bound when the join starts
+        body.append(Agg('w', {'aggmax': 'max', 'aggmin': 'min', 'aggsecond': 'second_highest'}[b], ['q0'], 'c', [AVar('q0')]))
+        bound.append('w')
     for (r, args) in ((r1, a1), (r2, a2)):
         body.append(Clause(r, [arg(s) for s in args]))
         for s in args:
@@ -675,6 +679,29 @@ def shape_to_rule(shape, dom):
     p = hv[0]
     q = hv[1] if len(hv) > 1 else hv[0]
     return Rule([Head('h', [V(p), V(q)])], body)
+
+
+_AGG_SHAPES = None
+
+
+def enumerated_agg_program(rng, nrules=12, dom=4):
+    """like enumerated_program, but every rule starts with an aggregate over the input relation c/1 whose result may be used by
+    the two clauses; the head relation is g/2 (not recursive through the aggregate: c is an input)"""
+    global _AGG_SHAPES
+    if _AGG_SHAPES is None:
+        _AGG_SHAPES = [s for s in rule_shape_space(binders=('aggmax', 'aggmin', 'aggsecond')) if 'w' in s[2] + s[4] and s[3] != 'c' or s[3] == 'c' and 'w' in s[2]]
+    rels = [Rel('a', [T.I32, T.I32]), Rel('b', [T.I32, T.I32]), Rel('c', [T.I32]), Rel('h', [T.I32, T.I32])]
+    rules, picked = [], []
+    while len(rules) < nrules:
+        i = rng.randrange(len(_AGG_SHAPES))
+        if i in picked:
+            continue
+        r = shape_to_rule(_AGG_SHAPES[i], dom)
+        if r is None:
+            continue
+        picked.append(i)
+        rules.append(r)
+    return Program(rels, rules), ['a', 'b', 'c'], picked
 
 
 def enumerated_program(rng, nrules=12, dom=4):
